@@ -104,4 +104,31 @@ def receive (c : Cell) (payload : Bytes) : Cell × Option Nat :=
   | .ok s => (c.set (fromSettings s), none)
   | .error e => (c, some (connCode e))
 
+/-- One entry of `ConnectionInner::pending_recv_streams` as a poll of `poll_accept_recv` finds it
+    (only what matters for the peer's SETTINGS). -/
+inductive Waiting where
+  /-- the stream header is still incomplete: `poll_type` answers `Poll::Pending` (no byte yet, a
+      partial type varint, or type PUSH / WEBTRANSPORT_UNI without its second integer) -/
+  | header
+  /-- the stream resolves to the peer's control stream; its first frame is a complete SETTINGS
+      frame carrying `payload` -/
+  | control (payload : Bytes)
+deriving Repr, DecidableEq
+
+/-- The `for stream in self.pending_recv_streams.iter_mut()` loop of `poll_accept_recv`:
+    `Poll::Pending => continue` — a stream whose header is incomplete is passed over, the streams
+    behind it are looked at in the same poll.  Result: the SETTINGS payload of the control stream
+    that `poll_control` then reads, if one was found. -/
+def scan : List Waiting → Option Bytes
+  | [] => none
+  | .header :: r => scan r
+  | .control p :: _ => some p
+
+/-- One poll of the connection driver (`poll_control` → `poll_accept_recv` → first frame of the
+    control stream) with these accepted unidirectional streams, in arrival order. -/
+def receiveScan (c : Cell) (ws : List Waiting) : Cell × Option Nat :=
+  match scan ws with
+  | none => (c, none)
+  | some p => receive c p
+
 end H3.Config
